@@ -328,7 +328,13 @@ func checkContract(c contractCase) evid.Outcome {
 		default:
 			p.MACPayload = &lorawan.DataPayload{Bytes: []byte{1, 2, 3, 4, 5, 6, 7, 8}}
 		}
-		for name, fn := range map[string]func(lorawan.AES128Key) error{"EncryptFRMPayload": p.EncryptFRMPayload, "DecryptFRMPayload": p.DecryptFRMPayload, "EncryptFOpts": p.EncryptFOpts, "DecryptFOpts": p.DecryptFOpts} {
+		// closures, not method values: an optional trailing parameter added to a method must not stop the harness from building
+		for name, fn := range map[string]func(lorawan.AES128Key) error{
+			"EncryptFRMPayload": func(k lorawan.AES128Key) error { return p.EncryptFRMPayload(k) },
+			"DecryptFRMPayload": func(k lorawan.AES128Key) error { return p.DecryptFRMPayload(k) },
+			"EncryptFOpts":      func(k lorawan.AES128Key) error { return p.EncryptFOpts(k) },
+			"DecryptFOpts":      func(k lorawan.AES128Key) error { return p.DecryptFOpts(k) },
+		} {
 			if err := fn(key); err == nil {
 				return evid.Fail("PHYPayload.%s on a frame without a data MACPayload (MType %d) reports success although nothing can be transformed", name, c.MType)
 			}
